@@ -328,7 +328,9 @@ class Parameter(AbstractParameter):
             t = torch.tensor(values, **kwargs)
             if 'dimension' in data:
                 dim = data['dimension']
-                t = t.repeat(int(dim / len(values)) + 1)[:dim]
+                # keep the parameter a leaf: repeat first, then flag it
+                t = t.detach().repeat(int(dim / len(values)) + 1)[:dim]
+                t.requires_grad_(kwargs['requires_grad'])
         if 'nn' in data and data['nn']:
             return cls(data['id'], nn.Parameter(t))
         return cls(data['id'], t)
